@@ -109,17 +109,21 @@ theorem effAfter_setBefore (e : Expr) (b : List Trivia) (na : Bool) : (e.setBefo
 theorem effAfter_addAfter (e : Expr) (ts : List Trivia) : (e.addAfter ts).effAfter false = e.effAfter false ++ ts := by
   cases e <;> simp [Expr.addAfter, Expr.setAfter, Expr.after, Expr.effAfter]
 
-theorem effAfter_notBinding {e : Expr} (h : e.notBinding = true) : e.effAfter false = e.after := by
-  cases e <;> first | rfl | cases h
-
 theorem nfInv_setBefore {e : Expr} (h : e.nfInv) {b : List Trivia} (hb : Alt b) : (e.setBefore b).nfInv := by
   cases e with
   | leaf k t b' a => exact ⟨h.1, hb, h.2.2⟩
   | list v m inn b' a => exact ⟨h.1, h.2.1, hb, h.2.2.2⟩
   | set v m r inn b' a => exact ⟨h.1, h.2.1, hb, h.2.2.2⟩
   | binding n v g b' a => exact ⟨h.1, h.2.1, h.2.2.1, hb, h.2.2.2.2⟩
-  | paren => exact h.elim
-  | app => exact h.elim
+  | paren v lg tg lb tb b' a => exact ⟨h.1, h.2.1, h.2.2.1, hb, h.2.2.2.2⟩
+  | app n x g fa b' a => exact ⟨h.1, h.2.1, h.2.2.1, h.2.2.2.1, hb, h.2.2.2.2.2⟩
+  | wth env bd c g s b' a => obtain ⟨h1, h2, h3, h4, _, h6⟩ := h; exact ⟨h1, h2, h3, h4, hb, h6⟩
+  | asrt => exact h.elim
+  | sel e ats g ab b' a => obtain ⟨h1, h2, h3, _, h5⟩ := h; exact ⟨h1, h2, h3, hb, h5⟩
+  | selOr e ats g ab d dg db b' a => obtain ⟨h1, h2, h3, h4, h5, h6, _, h8⟩ := h; exact ⟨h1, h2, h3, h4, h5, h6, hb, h8⟩
+  | lam n bcc g k body b' a => obtain ⟨h1, h2, h3, h4, h5, _, h7⟩ := h; exact ⟨h1, h2, h3, h4, h5, hb, h7⟩
+  | un op e g bt b' a => obtain ⟨h1, h2, h3, h4, _, h6⟩ := h; exact ⟨h1, h2, h3, h4, hb, h6⟩
+  | bin op l r x y b' a => obtain ⟨h1, h2, h3, h4, h5, _, h7⟩ := h; exact ⟨h1, h2, h3, h4, h5, hb, h7⟩
 
 theorem nfInv_addAfter {e : Expr} (h : e.nfInv) (hc : closedT (e.effAfter false)) {ts : List Trivia} (hts : Alt ts) :
     (e.addAfter ts).nfInv := by
@@ -132,8 +136,16 @@ theorem nfInv_addAfter {e : Expr} (h : e.nfInv) (hc : closedT (e.effAfter false)
     show Alt (v.after ++ (a ++ ts))
     rw [← List.append_assoc]
     exact alt_append_closed h.2.2.2.2.1 hc hts
-  | paren => exact h.elim
-  | app => exact h.elim
+  | paren v lg tg lb tb b a => exact ⟨h.1, h.2.1, h.2.2.1, h.2.2.2.1, alt_append_closed h.2.2.2.2 hc hts⟩
+  | app n x g fa b a => exact ⟨h.1, h.2.1, h.2.2.1, h.2.2.2.1, h.2.2.2.2.1, alt_append_closed h.2.2.2.2.2 hc hts⟩
+  | wth env bd c g s b a => obtain ⟨h1, h2, h3, h4, h5, h6⟩ := h; exact ⟨h1, h2, h3, h4, h5, alt_append_closed h6 hc hts⟩
+  | asrt => exact h.elim
+  | sel e ats g ab b a => obtain ⟨h1, h2, h3, h4, h5⟩ := h; exact ⟨h1, h2, h3, h4, alt_append_closed h5 hc hts⟩
+  | selOr e ats g ab d dg db b a =>
+    obtain ⟨h1, h2, h3, h4, h5, h6, h7, h8⟩ := h; exact ⟨h1, h2, h3, h4, h5, h6, h7, alt_append_closed h8 hc hts⟩
+  | lam n bcc g k body b a => obtain ⟨h1, h2, h3, h4, h5, h6, h7⟩ := h; exact ⟨h1, h2, h3, h4, h5, h6, alt_append_closed h7 hc hts⟩
+  | un op e g bt b a => obtain ⟨h1, h2, h3, h4, h5, h6⟩ := h; exact ⟨h1, h2, h3, h4, h5, alt_append_closed h6 hc hts⟩
+  | bin op l r x y b a => obtain ⟨h1, h2, h3, h4, h5, h6, h7⟩ := h; exact ⟨h1, h2, h3, h4, h5, h6, alt_append_closed h7 hc hts⟩
 
 theorem closedT_append {a b : List Trivia} (ha : closedT a) (hb : closedT b) : closedT (a ++ b) := by
   rcases hb with h | ⟨c, hc⟩
@@ -447,11 +459,310 @@ theorem parseSeq_prev : (its : Items) → ∀ (m : Mode) (st st' : SeqSt), its.p
 theorem parseSeq_prev_of_content (its : Items) (m : Mode) (st st' : SeqSt) (hp : its.parseSeq m st = .ok st')
     (h : its.isNil = false) : st'.prev ≠ .none := parseSeq_prev its m st st' hp (Or.inl h)
 
+/-! ### top level: nothing in front of the first token -/
+
+def headBeforeOk : List Expr → Prop
+  | [] => True
+  | e :: _ => e.before = [] ∨ headCmt e.before
+
+def HeadInv (st : SeqSt) : Prop :=
+  (st.items = [] → (st.prev = .none ∧ st.before = []) ∨ (st.prev ≠ .none ∧ headCmt st.before)) ∧
+  headBeforeOk st.items
+
+theorem headCmt_append {a : List Trivia} (h : headCmt a) (b : List Trivia) : headCmt (a ++ b) := by
+  cases a with
+  | nil => exact absurd h (by simp [headCmt])
+  | cons x r => cases x <;> simp [headCmt] at h ⊢
+
+theorem headCmt_appendGap {a : List Trivia} (h : headCmt a) (g : Text) (b : Bool) :
+    headCmt (appendGapTriviaOff a g b) := by
+  rcases appendGapTriviaOff_cases a g b with e | ⟨t, _, e⟩ <;> rw [e]
+  · exact h
+  · exact headCmt_append h _
+
+theorem headBeforeOk_modifyLast (ts : List Trivia) : ∀ {l : List Expr}, headBeforeOk l →
+    headBeforeOk (modifyLast (fun e => e.addAfter ts) l)
+  | [], _ => trivial
+  | [e], h => by simpa [modifyLast, headBeforeOk] using h
+  | e :: e' :: r, h => h
+
+theorem headBeforeOk_append {l : List Expr} (hne : l ≠ []) (h : headBeforeOk l) (l' : List Expr) :
+    headBeforeOk (l ++ l') := by
+  cases l with
+  | nil => exact absurd rfl hne
+  | cons e r => exact h
+
+theorem modifyLast_ne_nil {α : Type} (f : α → α) {l : List α} (h : l ≠ []) : modifyLast f l ≠ [] := by
+  intro e
+  have := modifyLast_isEmpty f l
+  rw [e] at this
+  cases l with
+  | nil => exact h rfl
+  | cons _ _ => cases this
+
+theorem items_head : (its : Items) → ∀ (m : Mode) (cg : Text) (st st' : SeqSt), (m = .file ∨ m = .paren) →
+    its.wf m cg = true → its.parseSeq m st = .ok st' → HeadInv st → HeadInv st'
+  | .nil, m, cg, st, st', _, _, hp, h => by
+    simp only [Items.parseSeq] at hp; injection hp with hp; subst hp; exact h
+  | .cmt g t rest, m, cg, st, st', hm, hwf, hp, h => by
+    simp only [Items.wf, Bool.and_eq_true] at hwf
+    simp only [Items.parseSeq] at hp
+    refine items_head rest m cg _ st' hm hwf.2 hp ?_
+    unfold seqComment
+    split
+    · rename_i hin
+      rw [canInline_eq] at hin
+      simp only [Bool.and_eq_true, Bool.not_eq_true', List.isEmpty_eq_false_iff] at hin
+      exact ⟨fun he => absurd he (modifyLast_ne_nil _ hin.2), headBeforeOk_modifyLast _ h.2⟩
+    · refine ⟨fun he => Or.inr ⟨by simp, ?_⟩, h.2⟩
+      simp only at he
+      rcases h.1 he with ⟨hp0, hb0⟩ | ⟨hp1, hb1⟩
+      · unfold pushGap; simp [hp0, hb0, headCmt]
+      · unfold pushGap
+        have : (st.prev == Prev.none) = false := by simpa using hp1
+        simp only [this, Bool.false_eq_true, if_false]
+        exact headCmt_append (headCmt_appendGap hb1 _ _) _
+  | .elem g c rest, m, cg, st, st', hm, hwf, hp, h => by
+    simp only [Items.wf, Bool.and_eq_true] at hwf
+    simp only [Items.parseSeq] at hp
+    cases hpe : c.parse with
+    | error err => rw [hpe] at hp; cases hp
+    | ok e =>
+      rw [hpe] at hp
+      have heb : e.before = [] := by
+        obtain ⟨e', hpe', _, heb', _, _⟩ := cst_parse_spec false c hwf.1.2 (fun h => by cases h)
+        rw [hpe] at hpe'; injection hpe' with h'; subst h'; exact heb'
+      suffices key : headBeforeOk (st.items ++ [e.setBefore (pushGap st g ++ e.before)]) by
+        rcases hm with rfl | rfl
+        · simp only at hp
+          exact items_head rest .file cg _ st' (Or.inl rfl) hwf.2 hp ⟨fun he => by simp at he, key⟩
+        · simp only at hp
+          exact items_head rest .paren cg _ st' (Or.inr rfl) hwf.2 hp ⟨fun he => by simp at he, key⟩
+      by_cases hi : st.items = []
+      · rw [hi]
+        simp only [List.nil_append, headBeforeOk, before_setBefore]
+        rcases h.1 hi with ⟨hp0, hb0⟩ | ⟨hp1, hb1⟩
+        · left
+          have : pushGap st g = [] := by unfold pushGap; simp [hp0, hb0]
+          rw [this, heb]; rfl
+        · right
+          unfold pushGap
+          have : (st.prev == Prev.none) = false := by simpa using hp1
+          simp only [this, Bool.false_eq_true, if_false]
+          exact headCmt_append (headCmt_appendGap hb1 _ _) _
+      · exact headBeforeOk_append hi h.2 _
+  | .bind g n c1 g1 c2 g2 v c3 g3 rest, m, cg, st, st', hm, _, hp, _ => by
+    simp only [Items.parseSeq] at hp
+    cases hpv : v.parse with
+    | error err => rw [hpv] at hp; cases hp
+    | ok ve => rw [hpv] at hp; rcases hm with rfl | rfl <;> cases hp
+
+theorem finishSeq_none_head (st : SeqSt) (hc : Bool) (h : headBeforeOk st.items) :
+    headBeforeOk (finishSeq st none hc).1 := by
+  unfold finishSeq
+  by_cases hb : st.before.isEmpty = true
+  · simp only [hb, if_true]; exact h
+  · by_cases hi : st.items.isEmpty = true
+    · simp only [hb, hi, if_true, Bool.false_eq_true, if_false]; trivial
+    · simp only [hb, hi, Bool.false_eq_true, if_false]; exact headBeforeOk_modifyLast _ h
+
+theorem leadE_of_head {ts : List Trivia} (h : ts = [] ∨ headCmt ts) : leadE ts = 0 := by
+  rcases h with h | h
+  · subst h; rfl
+  · cases ts with
+    | nil => rfl
+    | cons t r => cases t <;> simp [headCmt] at h <;> rfl
+
+theorem alt_appBeforeArg (sp : AppSplit) (g : Text) : Alt (appBeforeArg sp g) := by
+  unfold appBeforeArg
+  split
+  · trivial
+  · have h := gcTrivia_alt sp.rest [] trivial closedT_nil
+    split
+    · exact alt_append_single h.1 _ (Or.inl h.2)
+    · simpa using h.1
+
+/-- `WithStatement.from_cst` on a `with` without comments -/
+theorem withFromCst_shape (he be : Expr) (g1 g2 g3 : Text) :
+    withFromCst he be [] g1 [] g2 [] g3 =
+      .wth he (if (appendGapTrivia [] (g2 ++ ';' :: g3)).isEmpty then be
+        else be.setBefore (appendGapTrivia [] (g2 ++ ';' :: g3) ++ be.before)) [] g1 [] [] [] := by
+  unfold withFromCst
+  simp only [collectTrivia, collectGo, semiSeq, List.isEmpty_nil, Bool.not_true, Bool.false_and, Bool.false_eq_true,
+    if_false, if_true]
+  rcases appendGapTrivia_cases (g2 ++ ';' :: g3) with e | e | e <;> rw [e] <;> simp [splitInline]
+
+/-- `FunctionCall.from_cst`: the layout invariants -/
+theorem app_nf {fe ae : Expr} (cs : GC) (g : Text) (hf : fe.nfInv) (hfb : fe.before = []) (ha : ae.nfInv)
+    (hab : ae.before = []) : (appFromCst fe ae cs g).nfInv := by
+  unfold appFromCst
+  simp only [hab, List.append_nil]
+  have halt := alt_appBeforeArg (appSplit cs true true []) g
+  refine ⟨hf, nfInv_setBefore ha ?_, hfb, fun hon => ?_, trivial, trivial⟩
+  · split
+    · exact alt_dropWhile _ halt
+    · exact halt
+  · simp only [hon, if_true, before_setBefore]
+    exact leadE_dropWhile _
+
+
 mutual
 theorem cst_nf : (c : Cst) → c.wf = true → c.basic = true → ∀ (e : Expr), c.parse = .ok e →
     e.nfInv ∧ e.before = [] ∧ e.after = [] ∧ e.notBinding = true
-  | .paren .., _, hbs, _, _ => by simp [Cst.basic] at hbs
-  | .app .., _, hbs, _, _ => by simp [Cst.basic] at hbs
+  | .kw w c1 g1 h c2 g2 c3 g3 b, hwf, hbs, ex, hp => by
+    simp only [Cst.wf, Bool.and_eq_true, List.isEmpty_iff] at hwf
+    obtain ⟨⟨⟨⟨⟨⟨⟨hc1, _⟩, hhw⟩, hc2⟩, _⟩, hc3⟩, _⟩, hbw⟩ := hwf
+    subst hc1; subst hc2; subst hc3
+    simp only [Cst.basic, Bool.and_eq_true] at hbs
+    obtain ⟨⟨hw, hhb⟩, hbb⟩ := hbs
+    subst hw
+    simp only [Cst.parse] at hp
+    cases hph : h.parse with
+    | error err => rw [hph] at hp; cases hp
+    | ok he =>
+      rw [hph] at hp
+      cases hpb : b.parse with
+      | error err => rw [hpb] at hp; cases hp
+      | ok be =>
+        rw [hpb] at hp
+        simp only [if_true] at hp
+        injection hp with hp; subst hp
+        obtain ⟨hhn, hhbf, _, _⟩ := cst_nf h hhw hhb he hph
+        obtain ⟨hbn, hbbf, _, _⟩ := cst_nf b hbw hbb be hpb
+        rw [withFromCst_shape]
+        refine ⟨⟨hhn, hhbf, rfl, ?_, trivial, trivial⟩, rfl, rfl, rfl⟩
+        rcases appendGapTrivia_cases (g2 ++ ';' :: g3) with e | e | e <;> rw [e]
+        · exact hbn
+        · exact nfInv_setBefore hbn (by rw [hbbf]; trivial)
+        · exact nfInv_setBefore hbn (by rw [hbbf]; trivial)
+  | .sel e c1 g1 gd attrs, hwf, hbs, ex, hp => by
+    simp only [Cst.wf, Bool.and_eq_true, List.isEmpty_iff] at hwf
+    obtain ⟨⟨⟨⟨⟨hew, hc1⟩, _⟩, _⟩, _⟩, _⟩ := hwf
+    subst hc1
+    simp only [Cst.basic] at hbs
+    simp only [Cst.parse] at hp
+    cases hpe : e.parse with
+    | error err => rw [hpe] at hp; cases hp
+    | ok ee =>
+      rw [hpe] at hp; injection hp with hp; subst hp
+      obtain ⟨hen, heb, _, _⟩ := cst_nf e hew hbs ee hpe
+      exact ⟨⟨hen, heb, by simp [collectTrivia, collectGo], trivial, trivial⟩, rfl, rfl, rfl⟩
+  | .selOr e c1 g1 gd attrs c2 g2 g3 d, hwf, hbs, ex, hp => by
+    simp only [Cst.wf, Bool.and_eq_true, List.isEmpty_iff] at hwf
+    obtain ⟨⟨⟨⟨⟨⟨⟨⟨⟨hew, hc1⟩, _⟩, _⟩, _⟩, _⟩, hc2⟩, _⟩, _⟩, hdw⟩ := hwf
+    subst hc1; subst hc2
+    simp only [Cst.basic, Bool.and_eq_true] at hbs
+    simp only [Cst.parse] at hp
+    cases hpe : e.parse with
+    | error err => rw [hpe] at hp; cases hp
+    | ok ee =>
+      rw [hpe] at hp
+      cases hpd : d.parse with
+      | error err => rw [hpd] at hp; cases hp
+      | ok de =>
+        rw [hpd] at hp; injection hp with hp; subst hp
+        obtain ⟨hen, heb, _, _⟩ := cst_nf e hew hbs.1 ee hpe
+        obtain ⟨hdn, hdb, _, _⟩ := cst_nf d hdw hbs.2 de hpd
+        exact ⟨⟨hen, heb, by simp [collectTrivia, collectGo], hdn, hdb, by simp [collectTrivia, collectGo], trivial, trivial⟩,
+          rfl, rfl, rfl⟩
+  | .lam n c1 g1 c2 g2 b, hwf, hbs, ex, hp => by
+    simp only [Cst.wf, Bool.and_eq_true, List.isEmpty_iff] at hwf
+    obtain ⟨⟨⟨⟨⟨hn, hc1⟩, _⟩, hc2⟩, _⟩, hbw⟩ := hwf
+    subst hc1; subst hc2
+    simp only [Cst.basic, Bool.and_eq_true, decide_eq_true_eq] at hbs
+    simp only [Cst.parse] at hp
+    cases hpb : b.parse with
+    | error err => rw [hpb] at hp; cases hp
+    | ok be =>
+      rw [hpb] at hp; injection hp with hp; subst hp
+      obtain ⟨hbn, hbb, _, _⟩ := cst_nf b hbw hbs.2 be hpb
+      have hnsemi : n ≠ [';'] := by
+        intro h; subst h; revert hn; decide
+      have hk : (if g2.count '\n' > 0 then 1 else 0) ≤ 1 := by split <;> omega
+      refine ⟨?_, rfl, rfl, rfl⟩
+      unfold lamFromCst
+      simp only
+      by_cases hc : g2.count '\n' ≤ 1
+      · have h0 : g2.count '\n' - 1 = 0 := by omega
+        simp only [h0, List.replicate_zero, List.isEmpty_nil, if_true]
+        refine ⟨hbn, by simp [collectTrivia, collectGo], hk, fun _ => hbb, hnsemi, trivial, trivial⟩
+      · have h1 : g2.count '\n' - 1 = 1 := by omega
+        have hpos : g2.count '\n' > 0 := by omega
+        simp only [h1, List.replicate_one, List.isEmpty_cons, Bool.false_eq_true, if_false, hpos, if_true]
+        refine ⟨nfInv_setBefore hbn (by rw [hbb]; trivial), by simp [collectTrivia, collectGo], Nat.le_refl _,
+          (fun h => by cases h), hnsemi, trivial, trivial⟩
+  | .un op c g e, hwf, hbs, ex, hp => by
+    simp only [Cst.wf, Bool.and_eq_true, List.isEmpty_iff] at hwf
+    obtain ⟨⟨⟨hop, hc⟩, _⟩, hew⟩ := hwf
+    subst hc
+    simp only [Cst.basic] at hbs
+    simp only [Cst.parse] at hp
+    cases hpe : e.parse with
+    | error err => rw [hpe] at hp; cases hp
+    | ok ee =>
+      rw [hpe] at hp; injection hp with hp; subst hp
+      obtain ⟨hen, heb, _, _⟩ := cst_nf e hew hbs ee hpe
+      have hopsemi : op ≠ [';'] := by
+        intro h; subst h; revert hop; decide
+      exact ⟨⟨hen, heb, by simp [collectTrivia, collectGo], hopsemi, trivial, trivial⟩, rfl, rfl, rfl⟩
+  | .bin l c1 g1 op c2 g2 r, hwf, hbs, ex, hp => by
+    simp only [Cst.wf, Bool.and_eq_true, List.isEmpty_iff] at hwf
+    obtain ⟨⟨⟨⟨⟨⟨⟨hlw, hc1⟩, _⟩, hop⟩, _⟩, hc2⟩, _⟩, hrw⟩ := hwf
+    simp only [Cst.basic, Bool.and_eq_true] at hbs
+    simp only [Cst.parse] at hp
+    cases hpl : l.parse with
+    | error err => rw [hpl] at hp; cases hp
+    | ok le =>
+      rw [hpl] at hp
+      cases hpr : r.parse with
+      | error err => rw [hpr] at hp; cases hp
+      | ok re =>
+        rw [hpr] at hp; injection hp with hp; subst hp
+        obtain ⟨hln, hlb, _, _⟩ := cst_nf l hlw hbs.1 le hpl
+        obtain ⟨hrn, hrb, _, _⟩ := cst_nf r hrw hbs.2 re hpr
+        have hopsemi : op ≠ [';'] := by
+          intro h; subst h; revert hop; decide
+        exact ⟨⟨hln, hlb, hrn, hrb, hopsemi, trivial, trivial⟩, rfl, rfl, rfl⟩
+  | .paren its cg, hwf, hbs, e, hp => by
+    simp only [Cst.wf, Bool.and_eq_true, beq_iff_eq] at hwf
+    simp only [Cst.parse] at hp
+    cases hps : its.parseSeq .paren {} with
+    | error err => rw [hps] at hp; cases hp
+    | ok st' =>
+      rw [hps] at hp
+      simp only at hp
+      have hst : StN st' := items_nf its .paren cg {} st' hwf.1.1 (by simpa [Cst.basic] using hbs) hps
+        ⟨trivial, trivial, trivial, fun h => absurd rfl h, fun _ => ⟨Or.inl rfl, rfl⟩⟩
+      have hhd : HeadInv st' := items_head its .paren cg {} st' (Or.inr rfl) hwf.1.1 hps
+        ⟨fun _ => Or.inl ⟨rfl, rfl⟩, trivial⟩
+      have hf := finishSeq_nf hst none (!its.isNil) (fun h =>
+        parseSeq_prev_of_content its _ _ st' hps (by simpa using h))
+      have hh := finishSeq_none_head st' (!its.isNil) hhd.2
+      cases hr : (finishSeq st' none (!its.isNil)).1 with
+      | nil => rw [hr] at hp; cases hp
+      | cons v tl =>
+        cases tl with
+        | cons w tl' => rw [hr] at hp; cases hp
+        | nil =>
+          rw [hr] at hp hf hh
+          injection hp with hp; subst hp
+          exact ⟨⟨hf.1.1, (hf.2.2.2 rfl).1, leadE_of_head hh, trivial, trivial⟩, rfl, rfl, rfl⟩
+  | .app f cs g a, hwf, hbs, e, hp => by
+    simp only [Cst.wf, Bool.and_eq_true] at hwf
+    simp only [Cst.basic, Bool.and_eq_true] at hbs
+    obtain ⟨⟨⟨hfw, _⟩, _⟩, haw⟩ := hwf
+    simp only [Cst.parse] at hp
+    cases hpf : f.parse with
+    | error err => rw [hpf] at hp; cases hp
+    | ok fe =>
+      rw [hpf] at hp
+      cases hpa : a.parse with
+      | error err => rw [hpa] at hp; cases hp
+      | ok ae =>
+        rw [hpa] at hp; injection hp with hp; subst hp
+        obtain ⟨hfn, hfb, _, _⟩ := cst_nf f hfw hbs.1 fe hpf
+        obtain ⟨han, hab, _, _⟩ := cst_nf a haw hbs.2 ae hpa
+        exact ⟨app_nf cs g hfn hfb han hab, rfl, rfl, rfl⟩
   | .leaf k t, hwf, _, e, hp => by
     have hspec := leaf_spec (k := k) (t := t) hwf
     simp only [Cst.parse] at hp
@@ -534,99 +845,6 @@ theorem items_nf : (its : Items) → ∀ (m : Mode) (cg : Text) (st st' : SeqSt)
             fun _ => closedT_nil, fun e => by cases e⟩
 end
 
-/-! ### top level: nothing in front of the first token -/
-
-def headBeforeOk : List Expr → Prop
-  | [] => True
-  | e :: _ => e.before = [] ∨ headCmt e.before
-
-def HeadInv (st : SeqSt) : Prop :=
-  (st.items = [] → (st.prev = .none ∧ st.before = []) ∨ (st.prev ≠ .none ∧ headCmt st.before)) ∧
-  headBeforeOk st.items
-
-theorem headCmt_append {a : List Trivia} (h : headCmt a) (b : List Trivia) : headCmt (a ++ b) := by
-  cases a with
-  | nil => exact absurd h (by simp [headCmt])
-  | cons x r => cases x <;> simp [headCmt] at h ⊢
-
-theorem headCmt_appendGap {a : List Trivia} (h : headCmt a) (g : Text) (b : Bool) :
-    headCmt (appendGapTriviaOff a g b) := by
-  rcases appendGapTriviaOff_cases a g b with e | ⟨t, _, e⟩ <;> rw [e]
-  · exact h
-  · exact headCmt_append h _
-
-theorem headBeforeOk_modifyLast (ts : List Trivia) : ∀ {l : List Expr}, headBeforeOk l →
-    headBeforeOk (modifyLast (fun e => e.addAfter ts) l)
-  | [], _ => trivial
-  | [e], h => by simpa [modifyLast, headBeforeOk] using h
-  | e :: e' :: r, h => h
-
-theorem headBeforeOk_append {l : List Expr} (hne : l ≠ []) (h : headBeforeOk l) (l' : List Expr) :
-    headBeforeOk (l ++ l') := by
-  cases l with
-  | nil => exact absurd rfl hne
-  | cons e r => exact h
-
-theorem modifyLast_ne_nil {α : Type} (f : α → α) {l : List α} (h : l ≠ []) : modifyLast f l ≠ [] := by
-  intro e
-  have := modifyLast_isEmpty f l
-  rw [e] at this
-  cases l with
-  | nil => exact h rfl
-  | cons _ _ => cases this
-
-theorem items_head : (its : Items) → ∀ (cg : Text) (st st' : SeqSt), its.wf .file cg = true →
-    its.parseSeq .file st = .ok st' → HeadInv st → HeadInv st'
-  | .nil, cg, st, st', _, hp, h => by
-    simp only [Items.parseSeq] at hp; injection hp with hp; subst hp; exact h
-  | .cmt g t rest, cg, st, st', hwf, hp, h => by
-    simp only [Items.wf, Bool.and_eq_true] at hwf
-    simp only [Items.parseSeq] at hp
-    refine items_head rest cg _ st' hwf.2 hp ?_
-    unfold seqComment
-    split
-    · rename_i hin
-      rw [canInline_eq] at hin
-      simp only [Bool.and_eq_true, Bool.not_eq_true', List.isEmpty_eq_false_iff] at hin
-      exact ⟨fun he => absurd he (modifyLast_ne_nil _ hin.2), headBeforeOk_modifyLast _ h.2⟩
-    · refine ⟨fun he => Or.inr ⟨by simp, ?_⟩, h.2⟩
-      simp only at he
-      rcases h.1 he with ⟨hp0, hb0⟩ | ⟨hp1, hb1⟩
-      · unfold pushGap; simp [hp0, hb0, headCmt]
-      · unfold pushGap
-        have : (st.prev == Prev.none) = false := by simpa using hp1
-        simp only [this, Bool.false_eq_true, if_false]
-        exact headCmt_append (headCmt_appendGap hb1 _ _) _
-  | .elem g c rest, cg, st, st', hwf, hp, h => by
-    simp only [Items.wf, Bool.and_eq_true] at hwf
-    simp only [Items.parseSeq] at hp
-    cases hpe : c.parse with
-    | error err => rw [hpe] at hp; cases hp
-    | ok e =>
-      rw [hpe] at hp; simp only at hp
-      have heb : e.before = [] := by
-        obtain ⟨e', hpe', _, heb', _, _⟩ := cst_parse_spec false c hwf.1.2 (fun h => by cases h)
-        rw [hpe] at hpe'; injection hpe' with h'; subst h'; exact heb'
-      refine items_head rest cg _ st' hwf.2 hp ⟨fun he => by simp at he, ?_⟩
-      by_cases hi : st.items = []
-      · rw [hi]
-        simp only [List.nil_append, headBeforeOk, before_setBefore]
-        rcases h.1 hi with ⟨hp0, hb0⟩ | ⟨hp1, hb1⟩
-        · left
-          have : pushGap st g = [] := by unfold pushGap; simp [hp0, hb0]
-          rw [this, heb]; rfl
-        · right
-          unfold pushGap
-          have : (st.prev == Prev.none) = false := by simpa using hp1
-          simp only [this, Bool.false_eq_true, if_false]
-          exact headCmt_append (headCmt_appendGap hb1 _ _) _
-      · exact headBeforeOk_append hi h.2 _
-  | .bind g n c1 g1 c2 g2 v c3 g3 rest, cg, st, st', _, hp, _ => by
-    simp only [Items.parseSeq] at hp
-    cases hpv : v.parse with
-    | error err => rw [hpv] at hp; cases hp
-    | ok ve => rw [hpv] at hp; cases hp
-
 /-! ### the whole file -/
 
 theorem trailing_cases (g : Text) :
@@ -639,11 +857,11 @@ theorem trailing_cases (g : Text) :
 
 /-- the rendered file: one expression whose leading whitespace is empty and whose trailing trivia
     is closed, then the end-of-file marker -/
-theorem srcRebuildP_nf (s : Src) (e : Expr) (he : s.exprs = [e]) (hok : e.ok) (hinv : e.nfInv)
+theorem srcRebuildP_nf (s : Src) (e : Expr) (he : s.exprs = [e]) (hok : e.ok) (hml : e.mlSafe) (hinv : e.nfInv)
     (hclean : e.inlineClean) (hhead : e.before = [] ∨ headCmt e.before) (hcl : closedT (e.effAfter false))
     (htr : s.trailing = [] ∨ s.trailing = [.emptyLine] ∨ s.trailing = [.linebreak]) :
     (summ s.rebuildP).fileOk = true := by
-  obtain ⟨l, f, t, hs, _, _, _, c1, c2, c3⟩ := rebuildAP_summ e hok hinv hclean false 0 false
+  obtain ⟨l, f, t, hs, _, _, _, c1, c2, c3, _⟩ := rebuildAP_summ e hok hml hinv hclean false 0 false
   have hl : l = [] := by
     rcases hhead with h | h
     · rw [c1 h]; rfl
@@ -694,8 +912,10 @@ theorem file_nf (f : File) (s : Src) (hwf : f.wf = true) (hbasic : f.basic = tru
     have hcount := items_parse_count f.items .file {} st' hps (Or.inl rfl)
     have hst : StN st' := items_nf f.items .file f.endGap {} st' hwf'.1.1 hbasic hps
       ⟨trivial, trivial, trivial, fun h => absurd rfl h, fun _ => ⟨Or.inl rfl, rfl⟩⟩
-    have hhd : HeadInv st' := items_head f.items f.endGap {} st' hwf'.1.1 hps
+    have hhd : HeadInv st' := items_head f.items .file f.endGap {} st' (Or.inl rfl) hwf'.1.1 hps
       ⟨fun _ => Or.inl ⟨rfl, rfl⟩, trivial⟩
+    have hinv := items_parse_inv f.items .file f.endGap {} st' hwf'.1.1 hps trivial
+    have hfml := finishSeq_inv st' none (!f.items.isNil) hinv.1
     have hf := finishSeq_nf hst none (!f.items.isNil) (fun h =>
       parseSeq_prev_of_content f.items _ _ st' hps (by simpa using h))
     have hlen := finishSeq_length st' none (!f.items.isNil)
@@ -730,7 +950,9 @@ theorem file_nf (f : File) (s : Src) (hwf : f.wf = true) (hbasic : f.basic = tru
       have hclo := hf.2.2.2 rfl; rw [← hex, hse] at hclo
       have hhb := hheadfin; rw [← hex, hse] at hhb
       have heok : e.ok := by have := hok.1; rw [hse] at this; exact this.1
-      refine srcRebuildP_nf s e hse heok hall.1 (hclean e (by rw [hse]; simp)) hhb hclo.1 ?_
+      have hml : e.mlSafe := by
+        have := hfml.1; rw [← hex, hse] at this; exact this.1
+      refine srcRebuildP_nf s e hse heok hml hall.1 (hclean e (by rw [hse]; simp)) hhb hclo.1 ?_
       rw [htrail, hinner]; exact trailing_cases _
 
 /-! meaning of the summary -/
@@ -828,6 +1050,31 @@ theorem inlineClean_of_B : (e : Expr) → e.inlineCleanB = true → e.inlineClea
     · rw [hml] at h1; cases h1
     · exact allFlat_of_B h1
   | .binding _ v _ _ _, h => inlineClean_of_B v h
+  | .paren v lg _ _ _ _ _, h => by
+    simp only [Expr.inlineCleanB, Bool.and_eq_true, Bool.or_eq_true, List.isEmpty_iff] at h
+    refine ⟨fun hon => ?_, inlineClean_of_B v h.2⟩
+    rcases h.1 with h1 | h1
+    · rw [hon] at h1; cases h1
+    · exact h1
+  | .app n x g _ _ _, h => by
+    simp only [Expr.inlineCleanB, Bool.and_eq_true, Bool.or_eq_true, List.isEmpty_iff] at h
+    refine ⟨fun hon => ?_, inlineClean_of_B n h.1.2, inlineClean_of_B x h.2⟩
+    rcases h.1.1 with h1 | h1
+    · rw [hon] at h1; cases h1
+    · exact h1
+  | .wth env body _ _ _ _ _, h => by
+    simp only [Expr.inlineCleanB, Bool.and_eq_true] at h
+    exact ⟨inlineClean_of_B env h.1, inlineClean_of_B body h.2⟩
+  | .asrt .., h => by simp [Expr.inlineCleanB] at h
+  | .sel e _ _ _ _ _, h => inlineClean_of_B e h
+  | .selOr e _ _ _ d _ _ _ _, h => by
+    simp only [Expr.inlineCleanB, Bool.and_eq_true] at h
+    exact ⟨inlineClean_of_B e h.1, inlineClean_of_B d h.2⟩
+  | .lam _ _ _ _ body _ _, h => inlineClean_of_B body h
+  | .un _ e _ _ _ _, h => inlineClean_of_B e h
+  | .bin _ l r ogl rgl _ _, h => by
+    simp only [Expr.inlineCleanB, Bool.and_eq_true, decide_eq_true_eq] at h
+    exact ⟨h.1.1.1, h.1.1.2, inlineClean_of_B l h.1.2, inlineClean_of_B r h.2⟩
 theorem allInlineClean_of_B : (es : List Expr) → allInlineCleanB es = true → allInlineClean es
   | [], _ => trivial
   | e :: rest, h => by
